@@ -620,7 +620,10 @@ pub mod verif {
         DELAY_DIVISOR.store(divisor, Ordering::SeqCst);
     }
 
-    pub(crate) fn delay_divisor() -> u32 {
+    /**
+    The divisor set through [`set_delay_divisor`].
+    */
+    pub fn delay_divisor() -> u32 {
         DELAY_DIVISOR.load(Ordering::SeqCst)
     }
 }
